@@ -98,6 +98,13 @@ ExecBLXr(x, i) ==
       lr  == IF IsARM(s.cpsr) THEN Sub(PCRead(s), <<0, 4>>) ELSE WOr(Sub(PCRead(s), <<0, 2>>), <<0, 1>>)
   IN BXWritePC(RsetX(x, 14, lr), tgt)
 ExecBX(x, i) == BXWritePC(x, Rget(x.s, i.m))
+\* BXJ with a trivial Jazelle implementation (JMCR.JE = 0): behaves as BX; JE = 1 reaches the SUBARCHITECTURE DEFINED handler
+\* the emulator does not implement; the HSTR.TJDBX trap of the Virtualization Extensions is not specified
+ExecBXJ(x, i) ==
+  LET s == x.s  jmcr == IF "JMCR" \in DOMAIN s.sys THEN s.sys.JMCR ELSE Zero IN
+  IF s.cfg.virt /\ (~IsSecure(s)) /\ Mode(s) # HYP THEN Unpred(NotImpl(x, "bxj-hstr-trap"))
+  ELSE IF Bit(jmcr, 0) = 0 THEN BXWritePC(x, Rget(s, i.m))
+  ELSE NotImpl(x, "jazelle")
 ExecCBZ(x, i) ==
   IF i.nonzero # IsZeroW(Rget(x.s, i.n)) THEN BranchWritePC(x, Add(PCRead(x.s), i.imm)) ELSE x
 ExecTB(x, i) ==
